@@ -1,11 +1,13 @@
 // ---- prelude for C16: Compiler::compile_query (src/compiler/compiler.rs), Assignment::targets
 #[derive(Clone, Copy, PartialEq, Eq, Structural)]
 pub enum PathPrefix { Event, Metadata }
+#[derive(PartialEq, Eq, Structural)]
 pub struct OwnedValuePath { pub id: u64 }
 impl Clone for OwnedValuePath {
     #[verifier::external_body]
     fn clone(&self) -> (r: Self) ensures r == *self { unimplemented!() }
 }
+#[derive(PartialEq, Eq, Structural)]
 pub struct OwnedTargetPath { pub prefix: PathPrefix, pub path: OwnedValuePath }
 impl Clone for OwnedTargetPath {
     #[verifier::external_body]
